@@ -260,6 +260,31 @@ def run(res):
                 if Hl > H0 * (1 + 1e-6) + 1e-9 * float(np.sum(w * y * y)) or gl > H0 / lam_hi * (1 + 1e-3) + 1e-12 * float(np.sum(y * y)):
                     res.violations.append(dict(what='lam -> infinity bounds violated: H(b_lam) <= H(b0), g(b_lam) <= H(b0)/lam for the null-space least-squares fit b0',
                                                finding=None, input=inp, observed=dict(H_lam=Hl, H0=H0, g_lam=gl, bound=H0 / lam_hi), expected='within bounds'))
+                # the proved rate (C13_limit_rate): with P u = A'z - M b0 (M = B'WB + S0), (b_l - b0)' M (b_l - b0) <= u'Pu / (2 l) and
+                # b_l' P b_l <= u'Pu / l^2 for every l > 0.  u is computed here (least squares on the symmetric P; the hypothesis is satisfiable
+                # exactly when the residual is at rounding level) and the bounds are evaluated along the whole lam path of the implementation
+                Mm = B.T @ (w[:, None] * B) + S0
+                rho = B.T @ (w * y) - Mm @ b0
+                u_ = np.linalg.lstsq(P, rho, rcond=None)[0]
+                hyp = float(np.linalg.norm(P @ u_ - rho)) / (float(np.linalg.norm(rho)) + 1e-300)
+                if float(np.linalg.norm(rho)) <= 1e-9 * float(np.linalg.norm(B.T @ (w * y)) + 1e-300) or hyp <= 1e-7:
+                    uPu = float(u_ @ P @ u_)
+                    swy = float(np.sum(w * y * y))
+                    for tp in traj:
+                        lam_eff = tp['lam']
+                        if lam_eff > 1e4:
+                            continue        # beyond: the Cholesky backward error of the code acts like an extra ridge (see edof_acc above)
+                        r_ = tp['beta'] - b0
+                        lhs_m = float(r_ @ Mm @ r_)
+                        lhs_p = float(tp['beta'] @ P @ tp['beta'])
+                        res.case(('rate', si, str(vary), lam_eff))
+                        if lhs_m > uPu / (2 * lam_eff) * (1 + 1e-6) + 1e-7 * swy or lhs_p > uPu / lam_eff ** 2 * (1 + 1e-6) + 1e-7 * swy / max(lam_eff, 1e-300):
+                            res.violations.append(dict(what='proved rate violated: (b_l - b0)\'M(b_l - b0) <= u\'Pu / (2 l) or b_l\'P b_l <= u\'Pu / l^2 fails for the null-space fit b0',
+                                                       finding=None, input=inp, observed=dict(lam=lam_eff, dist_M=lhs_m, g=lhs_p, uPu=uPu), expected='within the bounds'))
+                            break
+                    res.count('rate bound evaluated along the path')
+                else:
+                    res.count('rate bound: hypothesis P u = A\'z - M b0 not met numerically (relative residual > 1e-7), skipped')
                 gap = float(np.max(np.abs(B @ beta - B @ b0)) / (np.max(np.abs(y)) + 1e-300))
                 # the closeness check only makes sense where lam has reached the limit regime: by the proved bound the component of b_lam outside the
                 # null space has squared norm <= H0 / (lam * smallest positive eigenvalue of P); compare the fits only when that is negligible
